@@ -92,7 +92,11 @@ func ValProps(schemaText, docText string) string {
 	}
 	same := validator.Validate(schema, d2)
 	if ValErrsObs(same) != ValErrsObs(def) {
-		return viol("revalidate-same-document-differs:"+firstDifferingRule(def, same), ValErrsObs(def)+" vs "+ValErrsObs(same))
+		sig := "revalidate-same-document-differs:" + firstDifferingRule(def, same)
+		if hasSelfReachingFragment(d2) {
+			sig += ":self-reaching-fragment"
+		}
+		return viol(sig, ValErrsObs(def)+" vs "+ValErrsObs(same))
 	}
 	// C18: the default set is the explicit list of all specified rules
 	explicit := validator.Validate(schema, freshDoc(docText), std...)
@@ -166,4 +170,45 @@ func init() {
 		errs := validator.Validate(schema, doc)
 		return fmt.Sprintf("%d %d", len(errs), time.Since(t0).Nanoseconds())
 	}
+}
+
+// hasSelfReachingFragment: some fragment definition reaches a spread of itself (directly, through
+// other fragments, at any nesting depth).
+func hasSelfReachingFragment(doc *ast.QueryDocument) bool {
+	spreads := map[string][]string{}
+	var collect func(ss ast.SelectionSet, into *[]string)
+	collect = func(ss ast.SelectionSet, into *[]string) {
+		for _, s := range ss {
+			switch s := s.(type) {
+			case *ast.Field:
+				collect(s.SelectionSet, into)
+			case *ast.InlineFragment:
+				collect(s.SelectionSet, into)
+			case *ast.FragmentSpread:
+				*into = append(*into, s.Name)
+			}
+		}
+	}
+	for _, f := range doc.Fragments {
+		var xs []string
+		collect(f.SelectionSet, &xs)
+		spreads[f.Name] = xs
+	}
+	for start := range spreads {
+		seen := map[string]bool{}
+		stack := append([]string(nil), spreads[start]...)
+		for len(stack) > 0 {
+			n := stack[len(stack)-1]
+			stack = stack[:len(stack)-1]
+			if n == start {
+				return true
+			}
+			if seen[n] {
+				continue
+			}
+			seen[n] = true
+			stack = append(stack, spreads[n]...)
+		}
+	}
+	return false
 }
